@@ -84,6 +84,20 @@ pub fn run_c05(seed: u64, n: usize, out: &mut Out) {
             }
         }
         if r.pct(20) {
+            // regular-expression rules that do not compile (look-around, unbalanced brackets) match nothing; fused with others of
+            // their bucket they must not take those down with them
+            let bad: &str = r.pick(&["/banner[0-9]+(?!x)/", "/zz[/", "/a{2,1}b/", "/(?<=ad)vert/"]);
+            let opt: &str = r.pick(&["", "$image", "$script,third-party"]);
+            lines.push(format!("/advert[0-9]+/{}", opt));
+            lines.push(format!("{}{}", bad, opt));
+            if r.pct(50) {
+                lines.push(format!("/promo[a-z]+[0-9]/{}", opt));
+            }
+            let ty = if opt.contains("script") { "script" } else { "image" };
+            aimed.push(("https://cdn.test/advert12.png".to_string(), "https://shop.test/".to_string(), ty.to_string()));
+            aimed.push(("https://cdn.test/promox7".to_string(), "https://shop.test/".to_string(), ty.to_string()));
+        }
+        if r.pct(20) {
             // rules whose request types were all negated away share a bucket with ordinary ones: an exception of that kind still
             // applies to documents, and whatever the optimiser does with the bucket must keep it
             let w: &str = r.pick(&["adpage", "landing"]);
@@ -342,6 +356,12 @@ pub fn run_c04(seed: u64, n: usize, out: &mut Out) {
         } else if r.pct(25) {
             lines.extend(every_tag_copies(&mut r));
             scenario_url = Some(format!("https://cdn.test/{}", r.pick(&["x1", "x2"])));
+        }
+        if r.pct(12) {
+            // a rule that does not compile next to ones that do (adding a rule never unblocks)
+            lines.push("/advert[0-9]+/".to_string());
+            lines.push(r.pick(&["/banner[0-9]+(?!x)/", "/zz[/"]).to_string());
+            scenario_url = Some("https://cdn.test/advert12.png".to_string());
         }
         // rules of the general grammar ride along (token collisions, `||host*rest`, anchors): precedence and
         // monotonicity are stated about the engine's verdict, so whatever loses a rule in a bucket shows here too
